@@ -80,7 +80,8 @@ if __name__ == '__main__':
 
 SCEN_DESC = {
     'spawn': 'spawn/join storms: return, panic, cancel endings, detached handles, migration; join() value/panic/Cancel truthfulness, exactly-once run',
-    'spawnp': 'the same with coroutines pinned to workers (Builder::id)',
+    'spawnp': 'the same with a stack pool of capacity 4 (stacks reused at once)',
+    'coldpin': 'fresh-process mode (3 executions per process): pinned children (Builder::id) handed to every worker of a runtime that has just started, from a coroutine, a thread and a pinned coroutine',
     'joinrace': 'no-hook stress: 30 000 spawn+join (wait+is_done) rounds per execution',
     'park': 'rounds of park / park_timeout (whole and fractional ms) on a fresh Blocker or the coroutine handle, 1-3 unparkers; Ok only after an unpark, Timeout never early, never Canceled',
     'parkrace': 'no-hook stress: park/unpark turn passing between a coroutine and a spinning thread',
